@@ -885,6 +885,18 @@ func planFor(prop, tier string) (*plan, error) {
 				ps = append(ps, flowProg(f, "S:rep:"+pat+":"+sp))
 			}
 		}
+		// a value type that the directive's context would satisfy (an interface named Context of a user package
+		// called context): it is a value like any other, wherever it stands in a parameter list
+		for _, n := range []string{"midres", "chain2", "join"} {
+			for ti := 0; ti < 2; ti++ {
+				f := exprConc(pg.Shape(n))
+				f.Types[ti+1] = pg.SpCtxLike
+				for i := range f.Tasks {
+					f.Tasks[i].Ctx = i%2 == 1 && ti == 1
+				}
+				ps = append(ps, flowProg(f, "S:types=ctxlike:"+n))
+			}
+		}
 		// several cff.Results / cff.Params options in one directive
 		for _, n := range []string{"fork", "indep3", "pthru", "midres", "dupres", "pjoin"} {
 			for _, sp := range []string{"results", "results-spread", "params", "both"} {
